@@ -57,6 +57,10 @@ where
             T::from_buffer(buf)
         } else if let Entry::Occupied(mut entry) = self.queue.entry(id) {
             let queue = entry.get_mut();
+            if queue.fragments.len() != total as usize {
+                // belongs to a different frame than the one being reassembled
+                return None;
+            }
             if queue.add_fragment(seq, buf) {
                 let buf = queue.assemble();
                 // tracing::trace!("reassembled {} bytes", buf.len());
@@ -67,16 +71,23 @@ where
             }
         } else {
             // tracing::trace!("new entry for {}", id);
-            self.queue.insert(id, ReassembleQueue::new(total, seq, buf));
-            self.timer.push_back((id, Instant::now() + self.timeout));
+            let deadline = Instant::now() + self.timeout;
+            self.queue
+                .insert(id, ReassembleQueue::new(total, seq, buf, deadline));
+            self.timer.push_back((id, deadline));
             None
         }
     }
     pub fn timer(&mut self) {
         let now = Instant::now();
         for _ in 0..self.timer.partition_point(|x| x.1 < now) {
-            let id = self.timer.pop_front().unwrap().0;
-            self.queue.remove(&id);
+            let (id, deadline) = self.timer.pop_front().unwrap();
+            // the id may have been completed and reused by a newer frame since
+            if let Entry::Occupied(entry) = self.queue.entry(id) {
+                if entry.get().deadline <= deadline {
+                    entry.remove_entry();
+                }
+            }
             // tracing::trace!("removed fragment queue {} by timer", id);
         }
     }
@@ -151,16 +162,21 @@ impl<T: Buf> Iterator for MakeFragments<T> {
 struct ReassembleQueue {
     bitmap: u128,
     fragments: Vec<Bytes>,
+    deadline: Instant,
 }
 
 impl ReassembleQueue {
-    fn new(total: u8, seq: u8, buf: Bytes) -> Self {
+    fn new(total: u8, seq: u8, buf: Bytes, deadline: Instant) -> Self {
         let total = total as usize;
         let this = seq as usize;
         let bitmap = !0u128 << total | 1 << this;
         let mut fragments = vec![Bytes::new(); total];
         fragments[this] = buf;
-        Self { bitmap, fragments }
+        Self {
+            bitmap,
+            fragments,
+            deadline,
+        }
     }
     fn add_fragment(&mut self, seq: u8, buf: Bytes) -> bool {
         let this = seq as usize;
